@@ -69,13 +69,12 @@ fn main() {
     rep.rule = plan.rule.clone();
     rep.assumptions = plan.assumptions.clone();
     let mut extra = serde_json::Map::new();
-    for c in &plan.checks {
-        if let Some(o) = &only {
-            if !c.name().contains(o.as_str()) {
-                continue;
-            }
-        }
-        let st = c.run();
+    use rayon::prelude::*;
+    let selected: Vec<&Box<dyn props::common::Check>> = plan.checks.iter().filter(|c| only.as_ref().map(|o| c.name().contains(o.as_str())).unwrap_or(true)).collect();
+    // checks are independent; run them concurrently (each also parallelises internally) and
+    // report in plan order
+    let results: Vec<(explore::Stats, serde_json::Value)> = selected.par_iter().map(|c| (c.run(), c.extra())).collect();
+    for (c, (st, ex)) in selected.iter().zip(results) {
         eprintln!(
             "[{}] states={} transitions={} depth={}/{} outcomes={} found={} wall={:.1}s{}",
             st.spec,
@@ -88,7 +87,6 @@ fn main() {
             st.wall_s,
             st.capped.as_ref().map(|c| format!(" CAP: {c}")).unwrap_or_default()
         );
-        let ex = c.extra();
         if !ex.is_null() {
             extra.insert(c.name(), ex);
         }
